@@ -874,7 +874,8 @@ package query
 //@   ghostset after call (query.ViewMap).Set#*: published = published + 1
 //@   ghostset after call (*query.ReferenceScope).ReplaceTemporaryTable#*: published = published + 1
 //@ func Delete
-//@   property C14 C08
+//@   property C14 C08 C05
+//@   mapkeys MD:int→bool by $key >= 0
 //@   ownwrites E:value.Primary#
 //@   ensures [failed-statement-publishes-nothing] result2 != nil ==> published == old(published)
 //@   ghostset after call (query.ViewMap).Set#*: published = published + 1
